@@ -544,6 +544,7 @@ class DesignGen:
     for s in drivable:
       if s.T[0] == 'b' and not hasattr(s, 'direct') and rng.random() < self.opts.get('reg', 0.3): regs.append(s)
     for s in regs: add_readable(scope, s.path, s.T, s.n)
+    c.reg_paths = {s.path for s in regs if s.kind == 'out'}
     # targets in driving order: own comb signals and child inputs; child outputs become readable once
     # every input of the child is driven
     items = [('sig', s) for s in drivable if s not in regs]
@@ -563,11 +564,29 @@ class DesignGen:
           self.child_outputs(scope, iname, idx, ch)
     blocks = []
     cur = None
+    driven_cin = {}
     for it in items:
       s = it[1]
       mode = rng.random()
       connectable = s.T[0] == 'b' or True
-      if hasattr(s, 'direct'):
+      prev_in = []
+      if it[0] == 'cin' and s.T[0] == 'b' and s.n is None:
+        # REGISTERED outputs of the same child instance (no combinational path back to its inputs)
+        iname_, idx_ = it[2]
+        ch_ = next(x[1] for x in c.children if x[0] == iname_)
+        pre_ = f's.{iname_}' if idx_ is None else f's.{iname_}{idx_text(idx_)}'
+        prev_in = [pre_ + o.path[1:] for o in ch_.outs if o.path in getattr(ch_, 'reg_paths', ()) and o.T == s.T and o.n is None]
+      if prev_in and mode < self.opts.get('same_child', 0.25):
+        # the parent connects an output of a child to an input of the SAME child instance (the current tree rejects the design:
+        # 'connection missing from connect_order'; accepted => the usual comparison applies); control: via a parent wire
+        src_ = rng.choice(prev_in)
+        if rng.random() < 0.5:
+          c.lines.append(f'    {s.path} //= {src_}'); self.features.add('same-child-output-to-input')
+        else:
+          self.uid += 1
+          c.decl.append(f'    s.lw{self.uid} = Wire( Bits{s.T[1]} )')
+          c.lines += [f'    s.lw{self.uid} //= {src_}', f'    {s.path} //= s.lw{self.uid}']; self.features.add('same-child-output-to-input-via-parent-wire')
+      elif hasattr(s, 'direct'):
         nm = self.blk_name(c, 'up')
         c.lines += ['    @update', f'    def {nm}():', f'      {s.path} @= {s.direct}']
       elif mode < (0.4 if s.T[0] == 's' and s.n is None else 0.22) and connectable:
@@ -942,6 +961,7 @@ F32 = 'F32-same-width-ext-trunc-of-compound'
 F33 = 'F33-folded-constant-recomputed-narrow'
 F34 = 'F34-loop-variable-named-like-global'
 D1 = 'D1-descending-loop-variable-as-value'
+D2 = 'D2-same-child-port-to-port-connection'
 F38 = 'F38-bool-constant-attribute'
 F39 = 'F39-if-expression-loop-bound'
 F35 = 'F35-chained-assignment-sole-body-without-begin-end'
@@ -962,6 +982,7 @@ FIXED_STREAMS = {
   F29: ('verilog', 'yosys'),
   F31: ('verilog', 'yosys'), F32: ('verilog', 'yosys'), F33: ('verilog', 'yosys'), F34: ('verilog', 'yosys'),
   F38: ('verilog', 'yosys'), F39: ('verilog', 'yosys'),
+  D2: ('verilog', 'yosys'),   # directed: the parent connects two ports of the SAME child (rejected on the current tree: counted; seeded C03-7); control: via a parent wire
   D1: ('verilog',),       # directed (not a repaired defect): descending loops whose variable is used as a VALUE of its own width (seeded C03-2); yosys rejects negative steps
 }
 
@@ -1161,6 +1182,18 @@ def gen_finding(rng, be, fid):
     lo = rng.randint(0, W - 2); hi = rng.randint(lo + 1, W)
     L += ['class Top( Component ):', '  def construct( s ):', f'    s.a = InPort( Bits{W} )', f'    s.b = InPort( Bits{W} )', f'    s.r = OutPort( Bits{W} )',
           '    @update_ff', '    def ff():', f"      t = s.a {rng.choice('|^+')} s.b", f'      t[{lo}:{hi}] = s.b[0:{hi - lo}]', '      s.r <<= t']
+  elif fid == D2:
+    W = rng.choice([2, 4, 8])
+    variant = rng.choice(['loop', 'via-wire', 'loop'])        # (input-to-input chaining inside one child is an elaboration error in PyMTL)
+    L += ['class Ch( Component ):', '  def construct( s ):', f'    s.a_in = InPort( Bits{W} )', f'    s.b_in = InPort( Bits{W} )', f'    s.a_out = OutPort( Bits{W} )', f'    s.o = OutPort( Bits{W} )',
+          '    @update_ff', '    def ff():', f"      s.a_out <<= s.a_in {rng.choice('+^-')} {rng.randint(1, (1 << W) - 1)}",
+          '    @update', '    def up():', f"      s.o @= s.b_in {rng.choice('^+|')} s.a_in", '',
+          'class Top( Component ):', '  def construct( s ):', f'    s.in_ = InPort( Bits{W} )', f'    s.o = OutPort( Bits{W} )', f'    s.o2 = OutPort( Bits{W} )', '    s.u = Ch()']
+    conns = ['    s.u.a_in //= s.in_', '    s.o //= s.u.o', '    s.o2 //= s.u.a_out']
+    if variant == 'loop': mine = ['    s.u.b_in //= s.u.a_out']
+    else: L += [f'    s.w = Wire( Bits{W} )']; mine = ['    s.w //= s.u.a_out', '    s.u.b_in //= s.w']
+    k = rng.randint(0, len(conns))
+    L += conns[:k] + mine + conns[k:]
   elif fid == D1:
     W = rng.choice([4, 5, 6, 7, 8]); M = (W - 1).bit_length()
     step = rng.choice([1, 1, 2])
@@ -1230,6 +1263,31 @@ def gen_finding(rng, be, fid):
   if variant == 'const-array-field': d['expect'] = ('multi-driver', 'undriven'); d['scope'] = ('cfg',)
   if fid == F35: d['cycles'] = fixed_cycles
   return d
+
+def gen_history(rng, be):
+  """one class whose `//= lambda` is selected by a constructor parameter (a different expression text per value, on separate
+  lines under if/elif/else); several instances are elaborated in one process in random order, then each is translated and its
+  text compared with its own simulation (repaired defect F41: the source of a lambda block was cached per class)"""
+  W = rng.choice([4, 8, 16])
+  def ex():
+    a, b = rng.choice(['s.in_', 's.b']), rng.choice(['s.in_', 's.b', str(rng.randint(1, (1 << W) - 1))])
+    e = f"{a} {rng.choice('+-^&|')} {b}"
+    if rng.random() < 0.4: e = f"( {e} ) {rng.choice('+^')} {rng.randint(1, (1 << W) - 1)}"
+    return e
+  n = rng.choice([2, 3, 3])
+  es = []
+  while len(es) < n:
+    e = ex()
+    if e not in es: es.append(e)
+  L = _hdr() + ['class Top( Component ):', '  def construct( s, k ):', f'    s.in_ = InPort( Bits{W} )', f'    s.b = InPort( Bits{W} )', f'    s.out = OutPort( Bits{W} )',
+                f'    s.out2 = OutPort( Bits{W} )']
+  for k, e in enumerate(es):
+    L += [f"    {'if' if k == 0 else 'elif'} k == {k}:" if k < n - 1 else '    else:', f'      s.out //= lambda: {e}']
+  L += [f"    s.out2 //= lambda: s.b {rng.choice('+^')} k" if rng.random() < 0.5 else '    s.out2 //= s.b']
+  hist = [[k] for k in range(n)] + ([[rng.randrange(n)]] if rng.random() < 0.4 else [])
+  rng.shuffle(hist)
+  src = '\n'.join(L) + '\n'
+  return [{'src': src, 'label': 'history:lambda-selected-by-parameter', 'features': ['history'], 'history': hist, 'pick': i} for i in range(len(hist))]
 
 def gen_fixed(rng, be, fid):
   return gen_finding(rng, be, fid)
